@@ -102,7 +102,7 @@ def rand_times(rng, n):
     t = rng.choice([0, 0, 0, 5, 1000])
     out = [t]
     for _ in range(n - 1):
-        t += rng.choice([1, 1, 2, 10, 1000, 10 ** 6, 10 ** 9])
+        t += rng.choice([1, 1, 2, 10, 1000, 10 ** 6, 10 ** 9, 3 * 10 ** 9, 2 ** 32 + 1])
         out.append(t)
     return out
 
